@@ -13,6 +13,7 @@ for fs in "std,cache-type-score,fix-weight-length,charwise-pma,tag-prediction" "
   name="${fs//,/+}"; [ -z "$name" ] && name="alloc-only"
   ( cargo build --release --offline -q --manifest-path /verif/harness/vp-flags/Cargo.toml --target-dir "/verif/target/flags/$name" --no-default-features ${fs:+--features "$fs"} 2>&1 | tail -1 ) &
 done
+( cargo +nightly build --release --offline -q --manifest-path /verif/harness/vp-flags/Cargo.toml --target-dir "/verif/target/flags/nightly-std+cache-type-score+fix-weight-length+charwise-pma+tag-prediction+portable-simd" --no-default-features --features "std,cache-type-score,fix-weight-length,charwise-pma,tag-prediction,portable-simd" 2>&1 | tail -1 ) &
 # C08: nightly probe crate (interior mutability of Predictor)
 ( cargo +nightly build --release --offline -q --manifest-path /verif/harness/vp-freeze/Cargo.toml --target-dir /verif/target/freeze 2>&1 | tail -1 ) &
 ( /verif/tools/loomprep.sh > /dev/null 2>&1 && cargo build --release --offline -q --manifest-path /verif/harness/vp-loom/Cargo.toml --target-dir /verif/target/loom 2>&1 | tail -1 ) &
